@@ -545,6 +545,7 @@ func runRecording(t *rapid.T, mode string, vmime string) (canon string, nt bool,
 	var a, v *srcTrack
 	var at, vt *fTrack
 	var tracks []conn.UpTrack
+	vcacheSize := 0
 	dims := [][2]int{{64, 48}}
 	// a stream whose first keyframe never completes and that goes on for longer than the recorder is
 	// prepared to wait for the missing packet (its reorder ring holds 2*256+1 packets), so that a later keyframe opens the file
@@ -571,11 +572,13 @@ func runRecording(t *rapid.T, mode string, vmime string) (canon string, nt bool,
 		} else {
 			v = genVideo(t, vmime, rapid.IntRange(3, 40).Draw(t, "vframes"), dims)
 		}
-		vt = &fTrack{codec: webrtc.RTPCodecCapability{MimeType: vmime, ClockRate: 90000}, cache: packetcache.New(rapid.SampledFrom([]int{16, 64, 512}).Draw(t, "vcache"))}
+		vcacheSize = rapid.SampledFrom([]int{16, 64, 512}).Draw(t, "vcache")
+		vt = &fTrack{codec: webrtc.RTPCodecCapability{MimeType: vmime, ClockRate: 90000}, cache: packetcache.New(vcacheSize)}
 		tracks = append(tracks, vt)
 	}
 	allowLoss := rapid.IntRange(0, 3).Draw(t, "allowLoss") == 0
 	exclK4, exclK4audio := 0, 0
+	gapsAfterSwitch := 0
 	tornStart := false
 	var ad, vd delivery
 	if a != nil {
@@ -593,10 +596,28 @@ func runRecording(t *rapid.T, mode string, vmime string) (canon string, nt bool,
 			// known finding C20:resolution-change-in-batch: streams that change resolution are delivered in order and
 			// completely, so that a resolution-changing keyframe is never popped together with later frames
 			vd = delivery{lost: map[int]bool{}}
+			// ... except for this: the whole frame that follows a resolution-changing keyframe may reach only the publisher's
+			// cache (a gap the recorder fills when the frame after it arrives).  The keyframe has been written and the file
+			// switched by then; nothing is in flight at the switch.
+			gapAfter := map[int]bool{}
+			for fi, f := range v.frames {
+				// (a gap the cache can fill completely: otherwise the hole keeps later frames waiting, and they are in flight
+				// at the next switch)
+				if f.newDims && fi+2 < len(v.frames) && !v.frames[fi+1].key && !v.frames[fi+2].newDims && 2*len(v.frames[fi+1].pkts) <= vcacheSize &&
+					rapid.Bool().Draw(t, "gapRightAfterTheSwitch") {
+					gapAfter[fi+1] = true
+				}
+			}
 			for i := range v.pkts {
-				vd.order = append(vd.order, i)
+				if gapAfter[v.owner[i]] {
+					vd.order = append(vd.order, -1-i)
+					vd.cacheGaps++
+				} else {
+					vd.order = append(vd.order, i)
+				}
 			}
 			exclK4 = 1
+			gapsAfterSwitch = len(gapAfter)
 		} else {
 			vd = genDelivery(t, v, "v", 6, 200, allowLoss)
 			// a torn stream start: the keyframe whose first packet sets the time origin never completes,
@@ -847,6 +868,7 @@ func runRecording(t *rapid.T, mode string, vmime string) (canon string, nt bool,
 	c20Rec.ClassIf(tornStart && a != nil && withSR && res.avChecked > 0, "first_keyframe_never_completes_and_audio_checked_against_video_origin")
 	c20Rec.ClassIf(ad.dups+vd.dups > 0, "duplicates")
 	c20Rec.ClassIf(len(res.files) > 1, "several_files")
+	c20Rec.ClassN("cache_gap_right_after_a_resolution_change", gapsAfterSwitch)
 	c20Rec.ClassIf(vd.startSwap || ad.startSwap, "reordered_stream_start")
 	c20Rec.ClassN("excluded_known_samplebuilder_ring_wrap", res.prefixTruncations)
 	c20Rec.ClassN("excluded_known_duplicate_of_newest_packet", ad.exclNewestDup+vd.exclNewestDup)
